@@ -543,7 +543,8 @@ def standard_run(ctx, mod):
         libdir = lib if fl == "O1" else build_repo(ctx, fl)
         drv = None
         try:
-            drv = build_driver(ctx, r["driver"], needs_vo=r.get("needs_vo", ()))
+            if r.get("driver"):
+                drv = build_driver(ctx, r["driver"], needs_vo=r.get("needs_vo", ()))
         except BuildFailure as e:
             # the model no longer builds (e.g. a regenerated definition broke it): the tie is broken, but the
             # search on the implementation still runs so that a concrete failing input can be reported
@@ -551,9 +552,12 @@ def standard_run(ctx, mod):
             ctx.proof["failed"].append({"what": "model/driver build failed", "error": (getattr(e, "out", "") or "")[-2500:]})
             proof_ok = False
         h = build_harness(ctx, r["harness"], libdir, fl, extra=r.get("cxx_extra", ()))
-        n, mism, fails, cases = run_cases(ctx, h, drv, r["args"], r["tag"], timeout=r.get("timeout", 3000), env=r.get("env"))
+        n, mism, fails, cases = run_cases(ctx, h, drv, r["args"], r["tag"], timeout=r.get("timeout", 900), env=r.get("env"))
         ctx.say("%s: %d cases, %d disagreements, %d direct failures" % (r["tag"], n, len(mism), len(fails)))
         corr.append((r["tag"], n, mism, cases))
+        pref = getattr(mod, "FAIL_PREFIXES", None)   # a harness shared by several properties tags its '!' lines; each check takes its own
+        if pref is not None:
+            fails = [(l, t) for (l, t) in fails if any(t.startswith("! " + p) for p in pref)]
         fails_all += [(r["tag"], l, t) for (l, t) in fails]
         tot += n
         distinct += distinct_count(cases, getattr(mod, "nontrivial", lambda l: True))
